@@ -56,6 +56,15 @@ func (x *Exec) evalCall(st *State, call *ast.CallExpr) []Value {
 	if id, ok := fun.(*ast.Ident); ok {
 		x.anchor(st, "before call "+id.Name, call.Pos(), 0)
 	}
+	// a function-typed variable of a standard-library package (flag.Usage): prints, touches nothing of ours
+	if sel, ok := fun.(*ast.SelectorExpr); ok {
+		if v, ok := x.pkg.TypesInfo.ObjectOf(sel.Sel).(*types.Var); ok && v.Pkg() != nil && !strings.HasPrefix(v.Pkg().Path(), x.eng.modPath) {
+			if sig, ok := v.Type().Underlying().(*types.Signature); ok && sig.Params().Len() == 0 && sig.Results().Len() == 0 {
+				x.eng.trust(v.Pkg().Path() + "." + v.Name() + " (function variable, assumed to write nothing the repository observes)")
+				return nil
+			}
+		}
+	}
 	// call through a function value
 	fv := x.eval(st, call.Fun)
 	f, ok := fv.(FuncV)
